@@ -25,8 +25,7 @@ EXTENDS Naturals, Sequences, FiniteSets, TLC, Json
 CONSTANTS Bug,        \* negative controls: "none" | "optsteps" | "lrhist" | "schedepoch"
           Record, MaxCalls, MaxInts
 
-Keys == {"object", "probe", "dataset"}   \* "dataset": scan positions and descan shifts (learned by autograd only)
-OP == {"object", "probe"}
+Keys == {"object", "probe"}
 NoOpt == [type |-> "none", lr |-> 0, steps |-> 0, gen |-> 0]
 NoSched == [type |-> "none", e |-> 0, total |-> 0, og |-> 0, dbl |-> FALSE]
 NoParams == [type |-> "unset", lr |-> 0]
@@ -59,12 +58,9 @@ SetSchedulers(st, n) ==
             [type |-> st.schedp[k], e |-> 0, total |-> n, og |-> st.opt[k].gen,
              dbl |-> (st.sched[k].type # "none" /\ st.sched[k].og = st.opt[k].gen)]]]
 
-\* one full-batch iteration.  ag: gradients by autograd (every optimized tensor receives one) or analytic
-\* (object and probe only: the dataset tensors receive NO gradient, their optimizer is stepped but skips
-\* them - no update, no step count, moments frozen; the learning rate is still recorded and scheduled)
-Iterate(st, ag) ==
+\* one full-batch iteration
+Iterate(st) ==
   LET active == {k \in Keys : st.opt[k].type # "none"}
-      stepping == {k \in active : k # "dataset" \/ ag}
       known == DOMAIN st.lrs \cup active
       lrNow(k) == [lr |-> st.opt[k].lr, sch |-> st.sched[k].type, e |-> st.sched[k].e, total |-> st.sched[k].total,
                    dbl |-> st.sched[k].dbl]
@@ -75,12 +71,12 @@ Iterate(st, ag) ==
                    IF k \in DOMAIN st.lrs
                    THEN Append(st.lrs[k], IF k \in active THEN lrNow(k) ELSE zero)
                    ELSE [i \in 1..st.iters |-> zero] \o <<lrNow(k)>>],          \* back-fill for a new key
-        !.opt = [k \in Keys |-> IF k \in stepping THEN [st.opt[k] EXCEPT !.steps = @ + 1] ELSE st.opt[k]],
+        !.opt = [k \in Keys |-> IF k \in active THEN [st.opt[k] EXCEPT !.steps = @ + 1] ELSE st.opt[k]],
         !.sched = [k \in Keys |-> IF st.sched[k].type # "none" THEN [st.sched[k] EXCEPT !.e = @ + 1] ELSE st.sched[k]],
         !.theta = Append(@, [gens |-> [k \in Keys |-> st.opt[k].gen], steps |-> [k \in Keys |-> st.opt[k].steps],
-                             lr |-> [k \in Keys |-> IF k \in active THEN lrNow(k) ELSE zero], cons |-> st.cons, ag |-> ag])]
-RECURSIVE IterateN(_, _, _)
-IterateN(st, n, ag) == IF n = 0 THEN st ELSE IterateN(Iterate(st, ag), n - 1, ag)
+                             lr |-> [k \in Keys |-> IF k \in active THEN lrNow(k) ELSE zero], cons |-> st.cons])]
+RECURSIVE IterateN(_, _)
+IterateN(st, n) == IF n = 0 THEN st ELSE IterateN(Iterate(st), n - 1)
 
 \* a call: [n, reset, optp (function on a subset of Keys, possibly empty), skeep (no scheduler_params given),
 \*          schedp (function on a subset of Keys), cons]
@@ -100,7 +96,7 @@ Eff(st, c) ==
             ELSE s3
       newSched == c.reset \/ DOMAIN c.optp # {} \/ ~c.skeep
       s5 == IF newSched THEN SetSchedulers(s4, c.n) ELSE s4
-  IN IterateN(s5, c.n, c.ag)
+  IN IterateN(s5, c.n)
 
 \* what an interruption preserves.  The design: everything.  (Bug variants = negative controls.)
 Restore(st) ==
@@ -117,19 +113,16 @@ vars == <<twin, run, ncalls, nints, hist, last>>
 Adam(l) == [type |-> "adam", lr |-> l]
 Calls(first) ==
   LET ns == {1, 2}
-      base == [n |-> 1, reset |-> FALSE, optp |-> [k \in {} |-> NoParams], skeep |-> TRUE, schedp |-> [k \in {} |-> "none"], cons |-> "default", ag |-> TRUE]
-      A(n) == [base EXCEPT !.n = n, !.optp = [k \in OP |-> IF k = "object" THEN Adam(1) ELSE Adam(2)]]
-      D(n) == [A(n) EXCEPT !.skeep = FALSE, !.schedp = [k \in OP |-> IF k = "object" THEN "exp" ELSE "linear"]]
-      D2(n) == [A(n) EXCEPT !.optp = [k \in OP |-> IF k = "object" THEN [type |-> "adamw", lr |-> 1] ELSE [type |-> "sgd", lr |-> 3]],
+      base == [n |-> 1, reset |-> FALSE, optp |-> [k \in {} |-> NoParams], skeep |-> TRUE, schedp |-> [k \in {} |-> "none"], cons |-> "default"]
+      A(n) == [base EXCEPT !.n = n, !.optp = [k \in Keys |-> IF k = "object" THEN Adam(1) ELSE Adam(2)]]
+      D(n) == [A(n) EXCEPT !.skeep = FALSE, !.schedp = [k \in Keys |-> IF k = "object" THEN "exp" ELSE "linear"]]
+      D2(n) == [A(n) EXCEPT !.optp = [k \in Keys |-> IF k = "object" THEN [type |-> "adamw", lr |-> 1] ELSE [type |-> "sgd", lr |-> 3]],
                             !.skeep = FALSE, !.schedp = [k \in {"probe"} |-> "plateau"]]
       \* plain SGD keeps NO per-parameter state, so its state dict stays empty after stepping: with a scheduler
       \* that has already moved the lr, everything an interruption must carry over lives in the param group
-      S(n) == [A(n) EXCEPT !.optp = [k \in OP |-> [type |-> "sgd", lr |-> IF k = "object" THEN 3 ELSE 2]],
-                           !.skeep = FALSE, !.schedp = [k \in OP |-> "exp"]]
-      \* positions / descan learned too (autograd); GS: adamw with a scheduler on the dataset optimizer
-      G(n) == [A(n) EXCEPT !.optp = [k \in Keys |-> IF k = "object" THEN Adam(1) ELSE IF k = "probe" THEN Adam(2) ELSE Adam(4)]]
-      GS == [G(2) EXCEPT !.optp["dataset"] = [type |-> "adamw", lr |-> 4], !.skeep = FALSE, !.schedp = [k \in {"dataset"} |-> "exp"]]
-  IN IF first THEN {A(n) : n \in ns} \cup {D(n) : n \in ns} \cup {D2(2)} \cup {S(n) : n \in ns} \cup {G(n) : n \in ns} \cup {GS}
+      S(n) == [A(n) EXCEPT !.optp = [k \in Keys |-> [type |-> "sgd", lr |-> IF k = "object" THEN 3 ELSE 2]],
+                           !.skeep = FALSE, !.schedp = [k \in Keys |-> "exp"]]
+  IN IF first THEN {A(n) : n \in ns} \cup {D(n) : n \in ns} \cup {D2(2)} \cup {S(n) : n \in ns}
      ELSE {[base EXCEPT !.n = n] : n \in ns}                                                    \* plain continuation
           \cup {[base EXCEPT !.n = n, !.optp = [k \in {"object"} |-> [type |-> "sgd", lr |-> 3]]] : n \in ns}   \* new object optimizer
           \cup {D(n) : n \in ns}
@@ -139,8 +132,6 @@ Calls(first) ==
           \cup {[base EXCEPT !.n = 1, !.optp = [k \in {"probe"} |-> Adam(2)]]}                                  \* (re-)add a probe optimizer (staged optimisation)
           \cup {[base EXCEPT !.n = 1, !.cons = "tv"]}                                             \* constraints changed
           \cup {[base EXCEPT !.n = 2, !.skeep = FALSE, !.schedp = [k \in {"object"} |-> "exp"]]}                   \* scheduler only
-          \cup {[base EXCEPT !.n = n, !.ag = FALSE] : n \in ns}                                  \* continue with analytic gradients
-          \cup {[base EXCEPT !.n = 1, !.optp = [k \in {"dataset"} |-> Adam(4)]]}                 \* start learning positions / descan later
 
 Log(e) == hist' = IF Record THEN Append(hist, e) ELSE hist
 
